@@ -548,6 +548,31 @@ func checkErrorViz(c *Case, tr *Trace, m *Model, vg *vizGraph, e int, ii *Invoke
 		}
 		return out
 	}
+	// successful constructors are pruned together with every reference to
+	// their results: no edge of a constructor that is kept may point at a
+	// result that only pruned constructors produce
+	kept, prunedIDs := map[string]bool{}, map[string]string{}
+	for f := range set {
+		for id := range resultIDs(f) {
+			kept[id] = true
+		}
+	}
+	for _, f := range m.AllCtors() {
+		if !set[f] {
+			for id := range resultIDs(f) {
+				prunedIDs[id] = ctorDisplayName(f)
+			}
+		}
+	}
+	for _, cl := range vg.Clusters {
+		for _, ed := range cl.Edges {
+			if who, ok := prunedIDs[ed.To]; ok && !kept[ed.To] {
+				if _, isGroup := vg.Groups[ed.To]; !isGroup {
+					return &Failure{"viz-error", fmt.Sprintf("constructor %s keeps an edge to %q, a result of the pruned (successful) constructor %s", cl.Name, ed.To, who)}, false
+				}
+			}
+		}
+	}
 	switch kind {
 	case "ctor":
 		if !set[g] {
